@@ -721,36 +721,49 @@ pub fn run_c10(job: &Value) {
         ($W:ty) => {{
             let z: $W = Default::default();
             let one: $W = 1 as $W;
-            let mut trees: Vec<(String, WeightedTreeIndex<$W>, bool)> = vec![];
-            for n in 0..5usize {
-                if let Ok(t) = WeightedTreeIndex::<$W>::new(vec![z; n]) {
-                    trees.push((format!("new([0; {n}])"), t, false));
+            // every call into the crate runs under `guarded`: a panic while building these trees is itself a violation
+            let built = guarded(|| {
+                let mut trees: Vec<(String, WeightedTreeIndex<$W>, bool)> = vec![];
+                for n in 0..5usize {
+                    if let Ok(t) = WeightedTreeIndex::<$W>::new(vec![z; n]) {
+                        trees.push((format!("new([0; {n}])"), t, false));
+                    }
                 }
-            }
-            if let Ok(mut t) = WeightedTreeIndex::<$W>::new(Vec::<$W>::new()) {
-                let _ = t.push(z);
-                trees.push(("empty then push(0)".into(), t, false));
-            }
-            if let Ok(mut t) = WeightedTreeIndex::<$W>::new(vec![one]) {
-                let _ = t.update(0, z);
-                trees.push(("new([1]) then update(0, 0)".into(), t, false));
-            }
-            if let Ok(mut t) = WeightedTreeIndex::<$W>::new(vec![z, one, one]) {
-                t.pop();
-                t.pop();
-                trees.push(("new([0,1,1]) popped twice".into(), t, false));
-            }
-            if let Ok(mut t) = WeightedTreeIndex::<$W>::new(vec![one, one, one, one]) {
-                for i in 0..4 {
-                    let _ = t.update(i, z);
+                if let Ok(mut t) = WeightedTreeIndex::<$W>::new(Vec::<$W>::new()) {
+                    let _ = t.push(z);
+                    trees.push(("empty then push(0)".into(), t, false));
                 }
-                trees.push(("new([1;4]) all updated to 0".into(), t, false));
-            }
-            if let Ok(t) = WeightedTreeIndex::<$W>::new(vec![one]) {
-                trees.push(("new([1])".into(), t, true));
-            }
+                if let Ok(mut t) = WeightedTreeIndex::<$W>::new(vec![one]) {
+                    let _ = t.update(0, z);
+                    trees.push(("new([1]) then update(0, 0)".into(), t, false));
+                }
+                if let Ok(mut t) = WeightedTreeIndex::<$W>::new(vec![z, one, one]) {
+                    t.pop();
+                    t.pop();
+                    trees.push(("new([0,1,1]) popped twice".into(), t, false));
+                }
+                if let Ok(mut t) = WeightedTreeIndex::<$W>::new(vec![one, one, one, one]) {
+                    for i in 0..4 {
+                        let _ = t.update(i, z);
+                    }
+                    trees.push(("new([1;4]) all updated to 0".into(), t, false));
+                }
+                if let Ok(t) = WeightedTreeIndex::<$W>::new(vec![one]) {
+                    trees.push(("new([1])".into(), t, true));
+                }
+                trees
+            });
+            let trees = match built {
+                Caught::Ok(t) => t,
+                Caught::Panic(m) => {
+                    nviol += 1;
+                    emit(&json!({"ev": "viol", "wt": stringify!($W), "kind": "tiny_tree_panic", "tree": "empty / all-zero / one-element trees built through new, push, update, pop", "msg": m, "profile": profile}));
+                    vec![]
+                }
+                _ => vec![],
+            };
             for (desc, t, valid) in trees {
-                let mut ok = t.is_valid() == valid;
+                let mut ok = matches!(guarded(|| t.is_valid()), Caught::Ok(v) if v == valid);
                 for w in [0u64, u64::MAX, 0x8000_0000_0000_0000, 0x1234_5678_9abc_def0] {
                     let mut r = Mon::new(Scripted::new(seed, 0, w)).budget(1000);
                     let res = guarded(|| t.try_sample(&mut r));
@@ -773,14 +786,18 @@ pub fn run_c10(job: &Value) {
             let mut probes = 0u64;
             let mut check = |desc: String, t: &WeightedTreeIndex<$W>, nviol: &mut u64| {
                 probes += 1;
-                if t.is_valid() {
-                    let zero: $W = Default::default();
-                    let bad: Vec<usize> = (0..t.len()).filter(|&i| t.get(i) < zero).collect();
-                    if !bad.is_empty() {
-                        *nviol += 1;
-                        if *nviol <= 3 {
-                            emit(&json!({"ev": "viol", "wt": stringify!($W), "kind": "valid_tree_negative_weight", "tree": desc, "msg": format!("is_valid() is true but get({}) is negative", bad[0]), "profile": profile}));
-                        }
+                let zero: $W = Default::default();
+                let res = guarded(|| if t.is_valid() { (0..t.len()).filter(|&i| t.get(i) < zero).collect::<Vec<usize>>() } else { vec![] });
+                let msg = match res {
+                    Caught::Ok(bad) if bad.is_empty() => None,
+                    Caught::Ok(bad) => Some(("valid_tree_negative_weight", format!("is_valid() is true but get({}) is negative", bad[0]))),
+                    Caught::Panic(m) => Some(("accessor_panic", format!("is_valid() / get() panicked: {m}"))),
+                    _ => None,
+                };
+                if let Some((kind, m)) = msg {
+                    *nviol += 1;
+                    if *nviol <= 3 {
+                        emit(&json!({"ev": "viol", "wt": stringify!($W), "kind": kind, "tree": desc, "msg": m, "profile": profile}));
                     }
                 }
             };
@@ -842,15 +859,29 @@ pub fn run_c10(job: &Value) {
             for k in 0..200u64 {
                 let n = 1 + g.below(6) as usize;
                 let ws: Vec<$W> = (0..n).map(|_| ((g.unit() * 0.999 + 0.001) * [1.0, 0.1, 0.3, 1e-3, 7.0][g.below(5) as usize]) as $W).collect();
-                let Ok(mut t) = WeightedTreeIndex::<$W>::new(ws.clone()) else { continue };
                 let mut order: Vec<usize> = (0..n).collect();
                 for i in (1..n).rev() {
                     order.swap(i, g.below(i as u64 + 1) as usize);
                 }
-                for &i in &order {
-                    let _ = t.update(i, 0.0);
-                }
-                let valid = t.is_valid();
+                let built = guarded(|| {
+                    let mut t = WeightedTreeIndex::<$W>::new(ws.clone()).ok()?;
+                    for &i in &order {
+                        let _ = t.update(i, 0.0);
+                    }
+                    let v = t.is_valid();
+                    Some((t, v))
+                });
+                let (t, valid) = match built {
+                    Caught::Ok(Some(x)) => x,
+                    Caught::Panic(m) => {
+                        nviol += 1;
+                        if nviol <= 3 {
+                            emit(&json!({"ev": "viol", "wt": stringify!($W), "kind": "zeroed_tree_sample", "tree": format!("new({ws:?}) then every weight updated to 0 in order {order:?}"), "msg": format!("panic while updating: {m}"), "profile": profile}));
+                        }
+                        continue;
+                    }
+                    _ => continue,
+                };
                 let mut bad: Option<String> = None;
                 for w in [0u64, u64::MAX, 0x8000_0000_0000_0000, g.next()] {
                     let mut r = Mon::new(Scripted::new(seed ^ k, 0, w)).budget(1000);
